@@ -146,7 +146,7 @@ def observe(c):
                         if g.shape != e.shape:
                             V("shape", f"{fname}(A, {aname}) {what}: shape {g.shape} != {e.shape}", **extra)
                         elif not np.all(np.isfinite(g)):
-                            V("value", f"{fname}(A, {aname}) {what}: non-finite result", **extra, nonfinite=True)
+                            V("value", f"{fname}(A, {aname}) {what}: non-finite result", operand=what, **extra, nonfinite=True)
                         else:
                             err = float(np.max(np.abs(g.astype(np.complex128) - e)))
                             if err > rtol * max(1.0, float(np.linalg.norm(np.atleast_2d(Vm if what == '@V' else v)))):
